@@ -24,6 +24,7 @@ mod mcutil;
 
 fn main() {
     explore::install_panic_hook();
+    refmodel::trace::init_from_env();
     let args: Vec<String> = std::env::args().skip(1).collect();
     let id = args.first().cloned().unwrap_or_default();
     if id == "selftest" {
@@ -31,6 +32,7 @@ fn main() {
     }
     if let Err(e) = refmodel::selftest::run() { eprintln!("ENGINE-ERROR reference self-test failed: {e}"); std::process::exit(2); }
     let mut c = Ctx::from_args(&id, "L", &args[1..]); c.panic_only = id == "C17";
+    c.at_exit = refmodel::trace::flush;
     let ctx: &'static Ctx = Box::leak(Box::new(c));
     match id.as_str() {
         "C01" => c01::run(ctx),
